@@ -175,3 +175,42 @@ def chunk_schedule(rng, kind=None):
     if kind == "small":
         return [rng.randint(1, 17) for _ in range(5)]
     return [rng.choice([1, 2, 3, 5, 8, 64, 4096]) for _ in range(9)]
+
+
+class SimNet:
+    """In-process web: routes url -> (status, headers dict, body bytes).  Installed behind rdflib's urlopen seams with
+    kernel.refuse_network(handler).  Unknown hosts are refused; every request is recorded."""
+
+    def __init__(self, routes=None, stats=None):
+        self.routes = dict(routes or {})
+        self.calls = 0
+        self.log = []
+        self.stats = stats if stats is not None else {}
+
+    def __call__(self, req, *a, **kw):
+        import email.message
+        import urllib.error
+        import urllib.response
+
+        self.calls += 1
+        url = req.full_url if hasattr(req, "full_url") else str(req)
+        for _ in range(6):
+            self.log.append(url)
+            r = self.routes.get(url)
+            if r is None:
+                self.stats["net-refused"] = self.stats.get("net-refused", 0) + 1
+                raise urllib.error.URLError("simulated network: connection refused")
+            status, headers, body = r
+            msg = email.message.Message()
+            for k, v in headers.items():
+                msg[k] = v
+            if status in (301, 302, 303, 307, 308) and "Location" in headers:
+                self.stats["net-redirect"] = self.stats.get("net-redirect", 0) + 1
+                url = headers["Location"]
+                continue
+            if status >= 400:
+                self.stats["net-http-%d" % status] = self.stats.get("net-http-%d" % status, 0) + 1
+                raise urllib.error.HTTPError(url, status, "simulated", msg, io.BytesIO(body))
+            self.stats["net-200"] = self.stats.get("net-200", 0) + 1
+            return urllib.response.addinfourl(io.BytesIO(body), msg, url, status)
+        raise urllib.error.URLError("simulated network: redirect loop")
